@@ -95,7 +95,10 @@ Eval(r0, h0, s0, a0) ==
        THEN [reg |-> r, hb |-> h, status |-> "Paused", asm |-> a0, spawn |-> FALSE]
      ELSE IF s0 \in {"Init", "Paused"} /\ Enough(r)
        THEN [reg |-> r, hb |-> h, status |-> "Starting",
-             asm |-> [ops |-> FirstK(r.op, W), srs |-> FirstK(r.sr, W), gen |-> a0.gen + 1], spawn |-> TRUE]
+             asm |-> [ops |-> FirstK(r.op, W), srs |-> FirstK(r.sr, W),
+                      \* liveness variant: the hot retry loop over the same members does not count as a new generation
+                      gen |-> IF Live /\ a0.ops = FirstK(r.op, W) /\ a0.srs = FirstK(r.sr, W) THEN a0.gen ELSE a0.gen + 1],
+             spawn |-> TRUE]
      ELSE [reg |-> r, hb |-> h, status |-> s0, asm |-> a0, spawn |-> FALSE]
 
 ApplyEval(e) ==
